@@ -30,3 +30,15 @@ reg("C03", "scm", fn="check_narrow")
 reg("C13", "scm", fn="check_narrow")
 reg("C03", "arm")
 reg("C04", "arm")
+
+# C06 memory-safe, panic-free
+reg("C06", "sibpos", configs=("default", "utf16"))
+reg("C06", "scm")
+reg("C06", "panics", fn="check_match", configs=("default", "pu", "utf16"))
+# C14 UTF-16 / UCS-2
+reg("C14", "sibpos", configs=("utf16",))
+reg("C14", "panics", fn="check_match", configs=("utf16",))
+reg("C06", "mirror")
+reg("C01", "mirror")
+reg("C01", "mirror", fn="check_dirstate")
+reg("C03", "mirror", fn="check_dirstate")
